@@ -191,7 +191,7 @@ fn mapped_leaf(rng: &mut Rng, cfg: &GenCfg) -> TreeSpec {
 /// windows are not left to chance.
 fn gen_directed(rng: &mut Rng, cfg: &GenCfg, ids: &mut Ids) -> Scenario {
   let c = rng.chance(650);
-  match rng.below(7) {
+  match rng.below(8) {
     0 => {
       // map || stream || stream on clones of a cold cache over a user source
       let w = mapped_leaf(rng, cfg);
@@ -432,6 +432,64 @@ fn gen_directed(rng: &mut Rng, cfg: &GenCfg, ids: &mut Ids) -> Scenario {
           vec![Op {
             obj: 1,
             kind: OpKind::Map { columns: c },
+          }],
+        ],
+      }
+    }
+    6 => {
+      // a cancelled stream (the consumer callback unwinds) on a shared
+      // composite, followed by observers on the same and on another thread:
+      // no lock may stay held or poisoned
+      let inner = mapped_leaf(rng, cfg);
+      let text = content(&inner).0;
+      let calls = gen_calls(rng, &text, 3, cfg.ascii);
+      let r = TreeSpec::Replace {
+        inner: Box::new(inner),
+        calls,
+      };
+      let shared = match rng.below(3) {
+        0 => r,
+        1 => TreeSpec::Cached {
+          inner: Box::new(r),
+          cache_id: ids.cache(),
+        },
+        _ => TreeSpec::Concat {
+          children: vec![r, mapped_leaf(rng, cfg)],
+          how: ConcatHow::New,
+        },
+      };
+      let observers = [
+        OpKind::Source,
+        OpKind::Hash,
+        OpKind::Map { columns: c },
+        OpKind::Stream {
+          columns: c,
+          abort_at: None,
+        },
+        OpKind::CloneThen {
+          then: Box::new(OpKind::Source),
+        },
+      ];
+      Scenario {
+        family: "cancelled stream || observers".into(),
+        objects: vec![shared],
+        threads: vec![
+          vec![
+            Op {
+              obj: 0,
+              kind: OpKind::Stream {
+                columns: c,
+                abort_at: Some(rng.below(3) as u32),
+              },
+            },
+            Op {
+              obj: 0,
+              kind: rng.pick(&observers).clone(),
+            },
+          ],
+          vec![Op {
+            obj: 0,
+            kind: rng.pick(&observers).clone(),
           }],
         ],
       }
@@ -716,7 +774,13 @@ pub fn check_conc(
     if gated {
       counters.inc("gated_inconsistent_wrapped_tree");
     }
-    for order in sequential_family(scn) {
+    // single-op orders first: a call that panics all alone on a cold value is
+    // out of domain; a call that only panics after other calls (e.g. after a
+    // cancelled stream left a lock poisoned) is a violation, not a baseline
+    let mut family = sequential_family(scn);
+    family.sort_by_key(|o| o.len() != 1);
+    let mut panics_alone: BTreeSet<(usize, usize)> = BTreeSet::new();
+    for order in family {
       let full = order.len() == scn.n_ops();
       let seq = run_sequential(scn, knobs.shards, &order, cfg.consume, full);
       if !seq.unsafe_fails.is_empty() {
@@ -748,6 +812,21 @@ pub fn check_conc(
         let a = &seq.answers[*t][*i];
         if a.is_panic() {
           if let Answer::Panicked(m) = a {
+            if order.len() == 1 {
+              panics_alone.insert((*t, *i));
+            } else if !panics_alone.contains(&(*t, *i))
+              && !m.contains("rspack_sources_verif: precondition")
+              && !crate::strict::is_overflow_panic(m)
+            {
+              violations.push(Violation {
+                kind: "panic".into(),
+                op_class: op.kind.class().into(),
+                detail: format!(
+                  "single-threaded: T{} op{} {} on object {} returns on a cold value but panics after the calls before it in the order {:?}: {}",
+                  t, i, op.kind.label(), op.obj, order, m
+                ),
+              });
+            }
             if !m.contains("rspack_sources_verif: precondition") {
               return ConcResult {
                 violations,
